@@ -4,7 +4,7 @@ CONSTANTS
   MaxDepth = 2
   RootKinds = {"def"}
   CalleeKinds = {"def"}
-  RootSkel = {2, 3, 4, 11, 12, 21}
+  RootSkel = {2, 3, 4, 11, 21}
   RootAtoms = {"ps", "rt", "rz", "bk", "c1", "r1"}
   SubSkel = {1, 2, 3, 4}
   SubAtomsD = {"ps", "rt", "rz"}
